@@ -2,7 +2,11 @@
 import json
 import os
 
-from vcheck import Check, sh
+from vcheck import Check, sh, NCPU
+
+
+def nshards(n):
+    return max(1, min(n, max(NCPU, -(-n // 800))))
 
 
 def run(tier, replay=None):
@@ -25,10 +29,11 @@ def run(tier, replay=None):
     if ck.coq_ok:
         hdr = "From Mux Require Import Model Run."
         clines = open(os.path.join(ck.work, "cases_codec.txt")).read().splitlines()
-        cm = ck.coq_eval_cases(clines, hdr, "N * ccase", "codec_mismatches", tag="codec")
+        # ~0.6 MB of Coq heap per case: keep every case file small, 16 are evaluated at a time
+        cm = ck.coq_eval_cases(clines, hdr, "N * ccase", "codec_mismatches", tag="codec", shards=nshards(len(clines)))
         if cm is not None:
             rlines = open(os.path.join(ck.work, "cases_route.txt")).read().splitlines()
-            rm = ck.coq_eval_cases(rlines, hdr, "N * rcase", "route_mismatches", tag="route")
+            rm = ck.coq_eval_cases(rlines, hdr, "N * rcase", "route_mismatches", tag="route", shards=nshards(len(rlines)))
     if not ck.coq_ok:
         if not ck.violations:
             ck.unproved("the Mux development no longer checks: " + ck.coq_error,
@@ -36,7 +41,11 @@ def run(tier, replay=None):
     elif (cm or rm) and not ck.violations:
         first = None
         if rm:
-            first = {"routing_case": res["cases"][rm[0]]}
+            with open(os.path.join(ck.work, "route_inputs.jsonl")) as fh:
+                for k, line in enumerate(fh):
+                    if k == rm[0]:
+                        first = {"routing_case": json.loads(line), "coq_case_line": rlines[rm[0]][:1500]}
+                        break
         elif cm:
             first = {"codec_case_line": clines[cm[0]][:600]}
         ck.unproved("correspondence of the Mux model with net/url and goahttp.Muxer broke on %d codec case(s) and %d routing case(s); "
